@@ -340,6 +340,13 @@ def run(tier: str, seed: int) -> Report:
 
         for _vec, t in explore(runit3, 64):
             add(t, "enum-errwords")
+        # the error word (and messages for us ahead of it) arrives while the client is idle, the next call is a read
+        if w in ("Err40", "ErrFF") or tier == "thorough":
+            def runit3b(ch: Any, w: str = w) -> dict[str, Any]:
+                return run_scenario(ch, "RWR", [w, "DataUs"], 3, auto=True)
+
+            for _vec, t in explore(runit3b, 64):
+                add(t, "enum-errwords-read-first")
     # two tasks of the caller on one connection: a read is pending while another task writes
     for write_at in (100, 500):
         for ack_delay in (0, 1, 50, 300):
